@@ -62,6 +62,7 @@ func (h *harness) runCase(c Case, ds Decls, wantReject string, nontrivial bool, 
 		return
 	}
 	schema := "{" + f.Header + ",\n \"transform_declarations\": " + c.Decls + "}"
+	vh.Current(h.o, c)
 	out := runSchema(schema, c.Input, ds["FINAL_OUTPUT"])
 	canon, _ := json.Marshal(c)
 	if out.Panic != "" {
@@ -194,36 +195,70 @@ func (h *harness) runCase(c Case, ds Decls, wantReject string, nontrivial bool, 
 	}
 
 	// ---- oracle 5: constants and plain fields directly from the documented rules ------------------
-	for i, ro := range out.Recs {
-		mustFail := ""
-		for _, me := range ro.Direct {
-			if me.State == "fail" {
-				mustFail = me.Key
-			}
+	if !h.checkMembers(c, "const/field members", out.Recs, func(i int) []memberExp { return out.Recs[i].Direct }, false, "oracle:direct-member") {
+		return
+	}
+	// ... and on FINAL_OUTPUT restricted to exactly those members, where nothing else can make a
+	// record fail
+	if fo.HasObject && len(out.Recs) > 0 && len(out.Recs[0].Direct) > 0 && len(out.Recs[0].Direct) < len(fo.Object) {
+		keys := map[string]bool{}
+		for _, me := range out.Recs[0].Direct {
+			keys[me.Key] = true
 		}
-		if mustFail != "" {
-			if ro.Read != "!err" {
-				h.sum.Fail("record must fail (a field selects several nodes or a cast fails) but a result was emitted", c,
-					map[string]interface{}{"record": i, "member": mustFail, "observed": ro.Read})
+		rds, rfo := restrictTo(ds, keys)
+		rout := runSchema(schemaText(f, rds), c.Input, rfo)
+		if !rout.Rejected && rout.Panic == "" && len(rout.Recs) == len(out.Recs) {
+			if !h.checkMembers(c, "const/field members alone", rout.Recs, func(i int) []memberExp { return rout.Recs[i].Direct }, true, "oracle:direct-member-complete") {
 				return
 			}
-			continue
 		}
-		if ro.Read == "!err" {
-			continue
-		}
-		for _, me := range ro.Direct {
-			got := memberOf(ro.Read, me.Key, false)
-			want := me.Val
-			if me.State == "absent" {
-				want = "null"
+	}
+
+	// ---- oracle 6: output field names are exactly the declared names ----------------------------------
+	var cps []constPath
+	constPaths(fo, nil, &cps)
+	if len(cps) > 0 {
+		for i, ro := range out.Recs {
+			if ro.Read == "!err" {
+				continue
 			}
-			if got != want {
-				h.sum.Fail("member differs from the documented evaluation (anchoring / trim / omit / cast)", c,
-					map[string]interface{}{"record": i, "member": me.Key, "observed": got, "documented": want})
+			var v interface{}
+			if err := json.Unmarshal([]byte(ro.Read), &v); err != nil {
+				continue
+			}
+			for _, cp := range cps {
+				got, ok := lookupPath(v, cp.Path)
+				if !ok || got != cp.Val {
+					h.sum.Fail("a constant is not emitted under exactly its declared field names", c,
+						map[string]interface{}{"record": i, "path": cp.Path, "expected": cp.Val, "observed_present": ok, "observed": got, "output": ro.Read})
+					return
+				}
+			}
+			h.sum.Hist("oracle:declared-names")
+		}
+	}
+
+	// ---- oracle 7: bare-name xpaths select the unprefixed children only (own XML reading) ------------
+	if c.Format == "xml" && fo.XPath != nil && *fo.XPath == "/r/n" {
+		xd := xmlDirect(c.Input, fo)
+		if len(xd) == len(out.Recs) && len(xd) > 0 && len(xd[0]) > 0 {
+			if !h.checkMembers(c, "bare-name xpath (children with that local name and no prefix)", out.Recs, func(i int) []memberExp { return xd[i] }, false, "oracle:xml-name-test") {
 				return
 			}
-			h.sum.Hist("oracle:direct-member")
+			keys := map[string]bool{}
+			for _, me := range xd[0] {
+				keys[me.Key] = true
+			}
+			if len(keys) < len(fo.Object) {
+				rds, rfo := restrictTo(ds, keys)
+				rout := runSchema(schemaText(f, rds), c.Input, nil)
+				rxd := xmlDirect(c.Input, rfo)
+				if !rout.Rejected && rout.Panic == "" && len(rout.Recs) == len(rxd) {
+					if !h.checkMembers(c, "bare-name xpath members alone", rout.Recs, func(i int) []memberExp { return rxd[i] }, true, "oracle:xml-name-test-complete") {
+						return
+					}
+				}
+			}
 		}
 	}
 
@@ -296,6 +331,68 @@ func memberOf(full, key string, keep bool) string {
 	return canonBytes(b)
 }
 
+// checkMembers compares per-record member expectations with what was emitted.  complete = the
+// expectations cover EVERY member of the evaluated FINAL_OUTPUT, so a record may only fail when
+// one of them says so.
+func (h *harness) checkMembers(c Case, what string, recs []*recObs, exps func(i int) []memberExp, complete bool, hist string) bool {
+	for i, ro := range recs {
+		mustFail := ""
+		for _, me := range exps(i) {
+			if me.State == "fail" {
+				mustFail = me.Key
+			}
+		}
+		if mustFail != "" {
+			if ro.Read != "!err" {
+				h.sum.Fail(what+": the record must fail (several nodes selected, or a cast fails) but a result was emitted", c,
+					map[string]interface{}{"record": i, "member": mustFail, "observed": ro.Read, "complete": complete})
+				return false
+			}
+			continue
+		}
+		if ro.Read == "!err" {
+			if complete && len(exps(i)) > 0 {
+				h.sum.Fail(what+": the record fails although every member evaluates by the documented rules", c,
+					map[string]interface{}{"record": i, "expected_members": exps(i)})
+				return false
+			}
+			continue
+		}
+		for _, me := range exps(i) {
+			got := memberOf(ro.Read, me.Key, false)
+			want := me.Val
+			if me.State == "absent" {
+				want = "null"
+			}
+			if got != want {
+				h.sum.Fail(what+": member differs from the documented evaluation", c,
+					map[string]interface{}{"record": i, "member": me.Key, "observed": got, "documented": want, "complete": complete})
+				return false
+			}
+			h.sum.Hist(hist)
+		}
+	}
+	return true
+}
+
+// restrictTo returns the declarations with FINAL_OUTPUT reduced to the given members.
+func restrictTo(ds Decls, keys map[string]bool) (Decls, *GDecl) {
+	fo := ds["FINAL_OUTPUT"]
+	one := *fo
+	one.Object = nil
+	for _, kv := range fo.Object {
+		if keys[kv.Key] {
+			one.Object = append(one.Object, kv)
+		}
+	}
+	ods := Decls{}
+	for k, v := range ds {
+		ods[k] = v
+	}
+	ods["FINAL_OUTPUT"] = &one
+	return ods, &one
+}
+
 func (h *harness) corpusFile(p string) {
 	b, err := os.ReadFile(p)
 	if err != nil {
@@ -359,7 +456,7 @@ func main() {
 			(fo.Const == nil && fo.External == nil && !fo.HasArray && fo.Template == nil)) {
 			fo.XPath = f.Target
 		}
-		nrec := r.Between(1, 3)
+		nrec := r.Between(1, 5)
 		var input string
 		switch fname {
 		case "xml":
@@ -390,6 +487,16 @@ func main() {
 		if g.bigArrays > 0 {
 			sum.Hist("nontrivial:array>=10")
 		}
+		if g.upwards > 0 {
+			sum.Hist("shape:anchored-on-ancestor")
+		}
+		if g.weird > 0 {
+			sum.Hist("shape:awkward-field-names")
+		}
+		if fname == "xml" && g.nsDoc {
+			sum.Hist("shape:prefixed-elements")
+		}
+		sum.Hist(fmt.Sprintf("records:%d", nrec))
 		c := Case{Format: fname, Decls: ds.JSON(), Input: input}
 		h.runCase(c, ds, defect, g.twins > 0 || twoRefs || g.bigArrays > 0, true)
 	}
